@@ -36,7 +36,22 @@ def make_solvers(sc):
     parts = prob.split(sc["k"], sc["split_var"])
     kw = dict(consistency_alg_idx=sc["cfg"].get("ca", 0), var_heuristic_idx=sc["cfg"].get("vh", 0),
               dom_heuristic_idx=sc["cfg"].get("dh", 0), log_level="ERROR")
-    return [BacktrackSolver(p, **kw) for p in parts], kw
+    solvers = [BacktrackSolver(p, **kw) for p in parts]
+    if sc.get("used"):
+        for i, s in enumerate(solvers):
+            try:
+                if i % 3 == 0:
+                    for k, _ in enumerate(s.solve()):
+                        if k > 2000:
+                            break
+                elif i % 3 == 1:
+                    next(s.solve(), None)
+                else:
+                    s.minimize(sc.get("var", 0))
+            except Exception:  # noqa
+                pass
+            s.statistics.fill(0)      # the counters are observed relative to the start of the call under test
+    return solvers, kw
 
 
 def collect_streams(sc):
@@ -45,12 +60,15 @@ def collect_streams(sc):
     actual = []
     for i, s in enumerate(solvers):
         q = ListQ()
-        if sc["mode"] == "solve":
-            s.solve_and_queue(i, q)
-        elif sc["mode"] == "min":
-            s.minimize_and_queue(sc["var"], i, q)
-        else:
-            s.maximize_and_queue(sc["var"], i, q)
+        try:
+            if sc["mode"] == "solve":
+                s.solve_and_queue(i, q)
+            elif sc["mode"] == "min":
+                s.minimize_and_queue(sc["var"], i, q)
+            else:
+                s.maximize_and_queue(sc["var"], i, q)
+        except Exception:  # noqa - a worker method that raises leaves a stream without its completion marker: the
+            pass           # worker-protocol clause of the pipeline reports it (no machinery failure)
         streams.append(q.items)
         actual.append(problems.user_stats(s))      # what the worker's solver itself reports when it has finished
     ref = BacktrackSolver(problems.to_nucs(sc["P"]), **kw)
